@@ -19,6 +19,8 @@ pub mod c15;
 pub mod c16;
 #[cfg(feature = "cluster")]
 pub mod c17;
+#[cfg(feature = "cluster")]
+pub mod c18;
 pub mod fac;
 
 pub fn dispatch(args: &Args, rep: &mut Report) {
@@ -41,6 +43,8 @@ pub fn dispatch(args: &Args, rep: &mut Report) {
         "C16" => c16::run(args, rep),
         #[cfg(feature = "cluster")]
         "C17" => c17::run(args, rep),
+        #[cfg(feature = "cluster")]
+        "C18" => c18::run(args, rep),
         p => {
             eprintln!("unknown property {p}");
             std::process::exit(2);
